@@ -82,7 +82,7 @@ func (p *c09prop) Plan(tier string, seed int64) []core.Segment {
 		{Kind: "overlap", N: 3 * tierScale(tier, 5), Chunk: 1},
 		// texts of 0.5-4 MiB: more than 64 Ki B* suffixes over all 256 byte
 		// values, recursion depths of the tandem repeat sort beyond 16
-		{Kind: "huge", N: 10 * tierScale(tier, 4), Chunk: 1},
+		{Kind: "huge", N: 14 * tierScale(tier, 4), Chunk: 1},
 		// X X and X X X with |X| of 15-45 kB over 2-6 letters
 		{Kind: "tandem", N: 60 * tierScale(tier, 20), Chunk: 6},
 	}
@@ -509,7 +509,28 @@ func (p *c09prop) Gen(kind string, idx int64, seed int64, tier string) core.Case
 				sc.Text = staircaseText(r)
 			}
 		case "huge":
-			switch idx % 5 {
+			switch idx % 7 {
+			case 5:
+				// exactly periodic (the smallest suffix is a border of the text)
+				n := 66000 + r.Intn(140000)
+				sc = SfxCase{Text: gen.PeriodicRun(r, 1+r.Intn(7), n, 2+r.Intn(3)), Family: "huge:periodic-exact"}
+			case 6:
+				// the whole text is its smallest suffix (unique smallest byte in
+				// front), or a run in front of random bytes
+				n := 66000 + r.Intn(140000)
+				t := gen.Family(r, "rand256", n, gen.Hint{})
+				for i := range t {
+					if t[i] < 2 {
+						t[i] = 2
+					}
+				}
+				t[0] = 0
+				if r.Intn(2) == 0 {
+					for i := 0; i < 1000; i++ {
+						t[i] = 1
+					}
+				}
+				sc = SfxCase{Text: t, Family: "huge:smallest-first"}
 			case 0, 1:
 				n := []int{512 << 10, 1 << 20, 700000}[r.Intn(3)] + r.Intn(1000)
 				sc = SfxCase{Text: gen.Family(r, "rand256", n, gen.Hint{}), Family: "huge:rand256"}
